@@ -118,6 +118,19 @@ def expandOps (tableName : String) : List BatchOp → List BatchOp
        expandOps tableName r)
   | o :: r => o :: expandOps tableName r
 
+/-- Resolution of foreign keys added without `referent_schema` on a table in a named schema.  `_setup_referent` stubs the
+    referent table of every kept FK *as its original spec names it*; the copy of an unqualified FK is re-pointed at
+    `<schema>.<referent>`, which exists in the new MetaData only if another (qualified / reflected) kept FK refers to the same
+    table — and then must find its column there.  First offending FK decides (compile time of CREATE TABLE). -/
+def referentError (ks : List Const) : Option Err :=
+  let fks := ks.filter (·.kind == .fk)
+  let resolved := fks.filter (!·.unresolvedReferent)
+  (fks.filter (·.unresolvedReferent)).findSome? (fun u =>
+    let same := resolved.filter (·.rtable == u.rtable)
+    if same.isEmpty then some .noReferencedTable
+    else if u.rcols.all (fun c => same.any (·.rcols.contains c)) then none
+    else some .noReferencedColumn)
+
 /-- `BatchOperationsImpl.add_column`: position arguments need a recreate *at the time of the call* -/
 def queueError (always : Bool) : List BatchOp → List BatchOp → Bool
   | _, [] => false
@@ -143,8 +156,9 @@ structure Outcome where
 def runBatch (ct : ConvTable) (tableName : String) (reflected always : Bool) (ops : List BatchOp)
     (fault : Option Nat) (commitOnError : Bool) (db : Db) (mode : ConnMode := .pysqliteLegacy)
     (transactionalDdl : Bool := false) (copyFrom : Option Schema := none) (failKind : FailKind := .exception)
-    (partialReordering : List (List String) := []) : Outcome :=
-  let ops := expandOps tableName ops
+    (partialReordering : List (List String) := []) (schemaLabel : String := "") : Outcome :=
+  -- `toimpl.add_column` names the index of `Column(index=True)` after "<schema>_<table>"
+  let ops := expandOps (schemaLabel ++ tableName) ops
   let c0 := Conn.start mode db
   if queueError always [] ops then { recreated := false, trace := [], err := some .commandError, final := db }
   else if !shouldRecreate always ops then
@@ -158,11 +172,14 @@ def runBatch (ct : ConvTable) (tableName : String) (reflected always : Bool) (op
     match src with
     | none => { recreated := true, trace := [], err := some .noSuchTable, final := db }
     | some schema =>
-      match ((State.init tableName reflected schema partialReordering).applyOps ops).bind State.reorder with
+      match ((State.init tableName reflected schema partialReordering schemaLabel).applyOps ops).bind State.reorder with
       | .error e => { recreated := true, trace := [], err := some e, final := db }
       | .ok st =>
         if !distinct (st.columns.map (·.2.name)) then
           { recreated := true, trace := [], err := some .duplicateColumnPy, final := db }
+        else if (referentError st.keptConsts).isSome then
+          -- compiling CREATE TABLE: the foreign key's referent table / column is not in the MetaData (before any statement)
+          { recreated := true, trace := [], err := referentError st.keptConsts, final := db }
         else
           let x := create ct fault { st.plan with transactionalDdl := transactionalDdl, failKind := failKind } (Run.start c0)
           { recreated := true, trace := x.1.trace, err := x.2, final := (finish commitOnError x).committed }
